@@ -30,7 +30,9 @@ META = {
 
 PAT = re.compile(r"([a-z][\w_]*)\[(\d+)\]")
 TAGS = ["a", "b", "a[0]", "a[1]", "a[3]", "b[2]", "c_1[0]", "A[0]", "a[x]", "a[1]x", "a[01]",
-        "aB9_[2]", "b[0]", "[1]", "a[-1]", "a [1]"]
+        "aB9_[2]", "b[0]", "[1]", "a[-1]", "a [1]",
+        # word characters and digits are not only the ASCII ones
+        "aé[1]", "aé", "bψ_[0]", "a[٣]", "größe[2]", "a[1٢]"]
 BITS = [0, 1, True, False]
 NONBITS = [2, -1, 0.5, "1", None, [0, 2], [[0]], "0", 3, [1, "1"], [None]]
 
